@@ -1894,7 +1894,9 @@ Value collect_environment_overrides(const Value& environment_node) {
             overrides = merge_objects(overrides, value);
             continue;
         }
-        overrides.as_object()[key] = value;
+        Value entry = Value::make_object();
+        entry.as_object()[key] = value;
+        overrides = merge_objects(overrides, entry);
     }
     return overrides;
 }
